@@ -115,6 +115,7 @@ fn run_faulted(scn: &WfScn, g: &Golden, ctx: &mut Ctx) {
     let mut fault_in_finalize_first_attempt = false;
     let mut fault_in_write = false;
     let mut fault_in_retry = false;
+    let mut fault_in_drop = false;
     for (ei, e) in wb.log.iter().enumerate() {
         let failed = e.err.is_some() || e.fault == Some("zero");
         if !failed {
@@ -132,6 +133,7 @@ fn run_faulted(scn: &WfScn, g: &Golden, ctx: &mut Ctx) {
         ctx.stats.reach(&format!("fault-in:{}", fault_site(&wb, ei, &run.marks)));
         if m.call == "drop" {
             // Drop swallows errors by design; only "no panic" is claimed
+            fault_in_drop = true;
             continue;
         }
         if m.call == "finalize" && !m.is_retry {
@@ -171,13 +173,33 @@ fn run_faulted(scn: &WfScn, g: &Golden, ctx: &mut Ctx) {
     }
     // finalize retry: a one-shot fault that hit a finalize's first attempt (and nothing else)
     let one_shot = scn.plan.faults.iter().all(|f| !f.persistent) && scn.plan.dev.iter().all(|d| d.capacity.is_none());
-    if one_shot && fault_in_finalize_first_attempt && !fault_in_write && !fault_in_retry {
-        ctx.stats.reach("finalize-retry-judged");
+    let all_finalizes_eventually_ok = {
+        // for every finalize call of the program, its last attempt returned Ok
+        let mut ok = true;
         for (i, m) in run.marks.iter().enumerate() {
-            if m.is_retry && !m.res.is_ok() {
-                ctx.fail("C12", "finalize-retry-ok", "retry", format!("history {}: finalize failed once (one-shot fault), the immediate retry returned {}", pat, m.res.short()));
+            if m.call == "finalize" {
+                let is_last = run.marks.get(i + 1).map(|n| !(n.call == "finalize" && n.is_retry && n.call_no == m.call_no)).unwrap_or(true);
+                if is_last && !m.res.is_ok() {
+                    ok = false;
+                }
             }
-            let _ = i;
+        }
+        ok
+    };
+    if fault_in_retry {
+        ctx.stats.reach("fault-in-finalize-retry");
+    }
+    if one_shot && fault_in_finalize_first_attempt && !fault_in_write && !fault_in_drop && all_finalizes_eventually_ok {
+        ctx.stats.reach("finalize-retry-judged");
+        // "once the destination works": the last attempt of every retried finalize ran without a
+        // fault in its event range and must succeed
+        for (i, m) in run.marks.iter().enumerate() {
+            let last_attempt = m.is_retry && run.marks.get(i + 1).map(|n| !(n.is_retry && n.call_no == m.call_no)).unwrap_or(true);
+            let faulted = wb.log[m.first_ev..m.end_ev].iter().any(|e| e.err.is_some() || e.fault == Some("zero"));
+            if m.is_retry && !faulted && !m.res.is_ok() {
+                ctx.fail("C12", "finalize-retry-ok", "retry", format!("history {}: a retried finalize met no fault but returned {}", pat, m.res.short()));
+            }
+            let _ = last_attempt;
         }
         if !same {
             ctx.fail("C12", "finalize-retry-golden", "retry", format!("history {}: after a failed finalize and its retry the final files differ from the undisturbed run (shp {} vs {} bytes, shx {} vs {})", pat, shp.len(), g.shp.len(), shx.len(), g.shx.len()));
@@ -198,6 +220,7 @@ pub fn unit(seed: u64, ctx: &mut Ctx, ctl: &mut UnitCtl) {
         return;
     };
     let kinds: [u8; 4] = [0, 1, 2, 3];
+    let ek_of = |k: u32, dev: usize| -> u8 { [0u8, 1, 2, 3][(k as usize + dev) % 4] };
     let mut case = |plan: Plan, ctx: &mut Ctx, ctl: &mut UnitCtl| {
         let scn = WfScn { w: w.clone(), plan };
         if !ctl.before_case(|| Scenario::WFault(scn.clone())) {
@@ -217,6 +240,17 @@ pub fn unit(seed: u64, ctx: &mut Ctx, ctl: &mut UnitCtl) {
             for (kind, persistent) in [(FaultKind::Err(ek), false), (FaultKind::Err(ek), true), (FaultKind::Zero, false), (FaultKind::Eintr, false)] {
                 let mut plan = Plan::default();
                 plan.faults.push(Fault { dev: dev as u8, at: k, kind, persistent });
+                case(plan, ctx, ctl);
+            }
+        }
+        // two and three consecutive one-shot faults: the retry itself fails, a later retry succeeds
+        for k in 0..g.ops[dev] {
+            for extra in [vec![1u32], vec![2], vec![1, 2], vec![1, 14]] {
+                let mut plan = Plan::default();
+                plan.faults.push(Fault { dev: dev as u8, at: k, kind: FaultKind::Err(ek_of(k, dev)), persistent: false });
+                for d in &extra {
+                    plan.faults.push(Fault { dev: dev as u8, at: k + d, kind: FaultKind::Err(ek_of(k + d, dev)), persistent: false });
+                }
                 case(plan, ctx, ctl);
             }
         }
